@@ -270,7 +270,7 @@ def explore(key, cap, tname, msgs, acc, max_states):
 CHAIN_QUEUES = ("NormalQueue1RTL", "PipeQueue1RTL", "BypassQueue1RTL", "BypassQueue2RTL")
 
 
-def build_chain(qname):
+def build_chain(qname, via=None):
   """CL producer -> [RecvCL2SendRTL, inserted by connect()] -> en/rdy RTL queue -> [RecvRTL2SendCL, inserted by connect()] -> CL consumer"""
   import pymtl3.stdlib.queues.enrdy_queues as EQ
   from pymtl3 import Component, CallerIfcCL, Bits2, b2, update_once, non_blocking, connect, DefaultPassGroup
@@ -293,11 +293,29 @@ def build_chain(qname):
     def recv(s, msg):
       s.got.append(int(msg))
 
+  class Drain(Component):
+    """consumer behind a cycle-level queue: takes an element out whenever it is willing (the queue holds what arrived in between)"""
+    def construct(s):
+      s.ok = 0; s.got = []
+      s.deq = CallerIfcCL()
+
+      @update_once
+      def up_drain():
+        if s.ok and s.deq.rdy(): s.got.append(int(s.deq()))
+
   class Chain(Component):
     def construct(s):
-      s.src = Src(); s.q = getattr(EQ, qname)(Bits2); s.snk = Snk()
+      s.src = Src(); s.q = getattr(EQ, qname)(Bits2)
       connect(s.src.send, s.q.enq)
-      connect(s.q.deq, s.snk.recv)
+      if via is None:
+        s.snk = Snk()
+        connect(s.q.deq, s.snk.recv)
+      else:
+        import pymtl3.stdlib.queues.cl_queues as CLQ
+        s.clq = getattr(CLQ, via)(3)
+        s.snk = Drain()
+        connect(s.q.deq, s.clq.enq)           # the RTL queue feeds a cycle-level queue that keeps the messages for a while
+        connect(s.snk.deq, s.clq.deq)
 
   t = Chain(); t.elaborate(); t.apply(DefaultPassGroup()); t.sim_reset()
   names = {type(c).__name__ for c in t.get_all_components()}
@@ -305,11 +323,11 @@ def build_chain(qname):
   return t
 
 
-def run_chain(qname, seq):
+def run_chain(qname, seq, via=None):
   """-> failures; the oracle only uses what the property states for every queue-like conduit: delivered == accepted, in order, none
   lost, duplicated or invented, bounded buffering; after the consumer has been ready for a while everything accepted is delivered"""
-  t = build_chain(qname)
-  cap = 2 + (2 if qname.endswith("2RTL") else 1)            # two 1-entry adapters + the queue
+  t = build_chain(qname, via)
+  cap = 2 + (2 if qname.endswith("2RTL") else 1) + (3 if via else 0)           # two 1-entry adapters + the queue (+ the 3-entry CL queue)
   fails = []
   def step(w, m, ok, i):
     t.src.want, t.src.msg, t.snk.ok = w, m, ok
@@ -330,16 +348,20 @@ def run_chain(qname, seq):
   return fails
 
 
+VIAS = (None, "PipeQueueCL", "NormalQueueCL", "BypassQueueCL")
+
+
 def explore_chain(qname, tier, acc):
   L = 4 if tier == "quick" else 6
   letters = [(0, 0, 0), (0, 0, 1)] + [(1, m, ok) for m in (1, 2) for ok in (0, 1)]
   for k in range(1, L + 1):
     for seq in itertools.product(letters, repeat=k):
-      fails = run_chain(qname, seq)
-      acc.count("executions"); acc.count("chain_executions"); acc.count("transitions", len(seq))
-      for f in fails:
-        acc.violation(f"chain:{qname}:{f[0]}", dict(kind="chain", queue=qname, seq=[list(x) for x in seq]), f[1], f[2], f[3])
-      if fails: return
+      for via in ((None,) if k > 3 and tier == "quick" else VIAS):
+        fails = run_chain(qname, seq, via)
+        acc.count("executions"); acc.count("chain_executions"); acc.count("transitions", len(seq))
+        for f in fails:
+          acc.violation(f"chain:{qname}:{'->' + via + ':' if via else ''}{f[0]}", dict(kind="chain", queue=qname, via=via, seq=[list(x) for x in seq]), f[1], f[2], f[3])
+        if fails: return
   acc.add("configs", ("chain", qname, "Bits2"))
 
 
@@ -375,7 +397,7 @@ def run_shard(shard, tier, seed):
 
 def replay(case):
   if case.get("kind") == "chain":
-    return [(f"chain:{case['queue']}:{f[0]}", f[1], f[2], f[3]) for f in run_chain(case["queue"], [tuple(x) for x in case["seq"]])]
+    return [(f"chain:{case['queue']}:{f[0]}", f[1], f[2], f[3]) for f in run_chain(case["queue"], [tuple(x) for x in case["seq"]], case.get("via"))]
   im = Impl(case["key"], case["cap"], case["T"])
   for l in case["hist"]: im.apply(tuple(l))
   obs, spec = im.apply(tuple(case["letter"]))
